@@ -80,7 +80,6 @@ def execAll (fs : FS) (fuel : Nat) : Repo → List Json → List Json → Except
   | _, [], acc => pure acc.reverse
   | s, o :: os, acc => do
     let (s', r) ← execOp fs fuel s o
-    let r := r.setObjVal! "ub" (Json.bool s'.ub)
     -- a g_assert failure / NULL dereference ends the process
     match r.getObjVal? "err" with
     | .ok (Json.str _) => pure (r :: acc).reverse
